@@ -1,4 +1,5 @@
 import PydjinniModel.Props.C03Pos
+import PydjinniModel.Props.C03Text
 /-!
 # C03 — recorded positions are the spans of exactly the consumed tokens, and they nest
 
@@ -871,6 +872,308 @@ theorem dataType_text_span {src : String} {toks before ts : List Token} (hl : le
   intro hnl
   rw [hend, advance_append, advance_no_newline _ _ _ hnl]
 
+theorem dotSplit_mem (cs : List Char) : ∀ c ∈ cs, c = '.' ∨ ∃ part ∈ dotSplit cs, c ∈ part := by
+  induction cs with
+  | nil => intro c hc; cases hc
+  | cons x cs ih =>
+    intro c hc
+    simp only [dotSplit]
+    split
+    · next hx =>
+      rcases List.mem_cons.mp hc with rfl | hc
+      · exact Or.inl (by simpa using hx)
+      · rcases ih c hc with h | ⟨part, hp, hcp⟩
+        · exact Or.inl h
+        · exact Or.inr ⟨part, by simp [hp], hcp⟩
+    · split
+      · next hd =>
+        rcases List.mem_cons.mp hc with rfl | hc
+        · exact Or.inr ⟨[c], by simp, by simp⟩
+        · rcases ih c hc with h | ⟨part, hp, hcp⟩
+          · exact Or.inl h
+          · rw [hd] at hp; cases hp
+      · next h t hd =>
+        rcases List.mem_cons.mp hc with rfl | hc
+        · exact Or.inr ⟨c :: h, by simp, by simp⟩
+        · rcases ih c hc with h' | ⟨part, hp, hcp⟩
+          · exact Or.inl h'
+          · rw [hd] at hp
+            rcases List.mem_cons.mp hp with rfl | hp
+            · exact Or.inr ⟨x :: part, by simp, by simp [hcp]⟩
+            · exact Or.inr ⟨part, by simp [hp], hcp⟩
+
+theorem isIdent_no_newline {cs : List Char} (h : isIdent cs = true) : '\n' ∉ cs := by
+  cases cs with
+  | nil => simp
+  | cons c r =>
+    simp only [isIdent, Bool.and_eq_true, List.all_eq_true] at h
+    intro hm
+    rcases List.mem_cons.mp hm with he | hm
+    · rw [← he] at h; exact absurd h.1 (by decide)
+    · exact absurd (h.2 _ hm) (by decide)
+
+theorem isNsid_no_newline {cs : List Char} (h : isNsid cs = true) : '\n' ∉ cs := by
+  have key : ∀ r : List Char, (dotSplit r).all isIdent = true → '\n' ∉ r := by
+    intro r hr hm
+    rcases dotSplit_mem r _ hm with h' | ⟨part, hp, hcp⟩
+    · exact absurd h' (by decide)
+    · exact isIdent_no_newline (List.all_eq_true.mp hr part hp) hcp
+  cases cs with
+  | nil => simp
+  | cons c r =>
+    simp only [isNsid] at h
+    split at h
+    · next hc =>
+      intro hm
+      rcases List.mem_cons.mp hm with he | hm
+      · rw [← he] at hc; exact absurd hc (by decide)
+      · exact key r h hm
+    · simp only [Bool.and_eq_true] at h
+      exact key _ h.1
+
+/-- a well-formed token that is not a file path, comment or target contains no line break -/
+theorem wf_no_newline {t : Tk} (hw : t.WF) (ht : (∃ s, t = .kw s) ∨ (∃ s, t = .id s) ∨ (∃ s, t = .nsid s)) :
+    '\n' ∉ t.text.toList := by
+  rcases ht with ⟨s, rfl⟩ | ⟨s, rfl⟩ | ⟨s, rfl⟩
+  · have hs : s ∈ literals := by simpa [Tk.WF, Tk.wf] using hw
+    have hall : ∀ s ∈ literals, '\n' ∉ s.toList := by decide +kernel
+    exact hall s hs
+  · simp only [Tk.WF, Tk.wf, Bool.and_eq_true] at hw
+    exact isIdent_no_newline hw.1
+  · exact isNsid_no_newline hw
+
+
+theorem scan_tok_wf {cs : List Char} {ps : List Piece} (h : scan cs = some ps) : ∀ t w, Piece.tok t w ∈ ps → t.WF := by
+  refine scan_induct (motive := fun _ ps => ∀ t w, Piece.tok t w ∈ ps → t.WF) (by simp) ?_ ?_ cs ps h
+  · intro cs n ps _ _ _ ih t w hm
+    rcases List.mem_cons.mp hm with he | hm
+    · cases he
+    · exact ih t w hm
+  · intro cs t n ps _ hl _ ih t' w hm
+    rcases List.mem_cons.mp hm with he | hm
+    · cases he; exact lexOne_tok_wf hl
+    · exact ih t' w hm
+
+theorem tokensOf_append (l c : Nat) (xs ys : List Piece) :
+    tokensOf l c (xs ++ ys) = tokensOf l c xs ++ tokensOf (advance l c (flat xs)).1 (advance l c (flat xs)).2 ys := by
+  induction xs generalizing l c with
+  | nil => simp [tokensOf, flat, advance]
+  | cons p xs ih =>
+    cases p with
+    | ws w => simp only [List.cons_append, tokensOf, ih, flat_cons, Piece.chars, advance_append]
+    | tok t w => simp only [List.cons_append, tokensOf, ih, flat_cons, Piece.chars, advance_append]
+
+/-- split the pieces at a split of the tokens; white space between the two parts goes to the left part, so that the
+    right part starts with its first token -/
+theorem tokensOf_split_max {l c : Nat} {ps : List Piece} {A B : List Token} (h : tokensOf l c ps = A ++ B) (hB : B ≠ []) :
+    ∃ ps1 ps2, ps = ps1 ++ ps2 ∧ tokensOf l c ps1 = A ∧
+      tokensOf (advance l c (flat ps1)).1 (advance l c (flat ps1)).2 ps2 = B ∧ ∃ t w r, ps2 = Piece.tok t w :: r := by
+  induction ps generalizing l c A with
+  | nil =>
+    simp only [tokensOf] at h
+    have := List.append_eq_nil_iff.mp h.symm
+    exact absurd this.2 hB
+  | cons p ps ih =>
+    cases p with
+    | ws w =>
+      simp only [tokensOf] at h
+      obtain ⟨ps1, ps2, rfl, h1, h2, h3⟩ := ih h
+      refine ⟨Piece.ws w :: ps1, ps2, rfl, by simpa only [tokensOf] using h1, ?_, h3⟩
+      simpa only [flat_cons, Piece.chars, advance_append] using h2
+    | tok t w =>
+      cases A with
+      | nil => exact ⟨[], Piece.tok t w :: ps, rfl, rfl, by simpa [flat, advance] using h, t, w, ps, rfl⟩
+      | cons a A' =>
+        simp only [tokensOf, List.cons_append, List.cons.injEq] at h
+        obtain ⟨ha, h⟩ := h
+        obtain ⟨ps1, ps2, rfl, h1, h2, h3⟩ := ih h
+        refine ⟨Piece.tok t w :: ps1, ps2, rfl, by simp only [tokensOf, h1, ha], ?_, h3⟩
+        simpa only [flat_cons, Piece.chars, advance_append] using h2
+
+/-- split the pieces at a split of the tokens; white space between the two parts goes to the right part, so that the
+    left part ends with its last token -/
+theorem tokensOf_split_min {l c : Nat} {ps : List Piece} {A B : List Token} (h : tokensOf l c ps = A ++ B) (hA : A ≠ []) :
+    ∃ ps1 ps2, ps = ps1 ++ ps2 ∧ tokensOf l c ps1 = A ∧
+      tokensOf (advance l c (flat ps1)).1 (advance l c (flat ps1)).2 ps2 = B ∧ ∃ r t w, ps1 = r ++ [Piece.tok t w] := by
+  induction ps generalizing l c A with
+  | nil =>
+    simp only [tokensOf] at h
+    have := List.append_eq_nil_iff.mp h.symm
+    exact absurd this.1 hA
+  | cons p ps ih =>
+    cases p with
+    | ws w =>
+      simp only [tokensOf] at h
+      obtain ⟨ps1, ps2, rfl, h1, h2, r, t, w', rfl⟩ := ih h hA
+      refine ⟨Piece.ws w :: (r ++ [Piece.tok t w']), ps2, rfl, by simpa only [tokensOf] using h1, ?_, Piece.ws w :: r, t, w', rfl⟩
+      simpa only [flat_cons, Piece.chars, advance_append] using h2
+    | tok t w =>
+      cases A with
+      | nil => exact absurd rfl hA
+      | cons a A' =>
+        simp only [tokensOf, List.cons_append, List.cons.injEq] at h
+        obtain ⟨ha, h⟩ := h
+        by_cases hA' : A' = []
+        · subst hA'
+          refine ⟨[Piece.tok t w], ps, rfl, by simp only [tokensOf, ha], ?_, [], t, w, rfl⟩
+          simpa [flat, Piece.chars] using h
+        · obtain ⟨ps1, ps2, rfl, h1, h2, r, t', w', rfl⟩ := ih h hA'
+          refine ⟨Piece.tok t w :: (r ++ [Piece.tok t' w']), ps2, rfl, by simp only [tokensOf, h1, ha], ?_,
+            Piece.tok t w :: r, t', w', rfl⟩
+          simpa only [flat_cons, Piece.chars, advance_append] using h2
+
+/-- **the text of a token segment**: for a successfully lexed text and a non-empty contiguous segment `pre` of its
+    tokens whose last token contains no line break, the text splits as `p ++ m ++ q` where the start of `tokSpan pre` is the
+    line/column reached after `p`, its end the line/column reached after `p ++ m`, and `m` is exactly the texts of the
+    tokens of `pre` in order, separated by the white-space runs that stood between them (`m = flat psm` for well-formed
+    pieces `psm` whose token kinds are those of `pre`, beginning and ending with a token) -/
+theorem lex_segment_text {src : String} {toks before pre rest : List Token} (hl : lex src = some toks)
+    (hts : toks = before ++ pre ++ rest) {b : Token} (hb : pre.getLast? = some b) (hnl : '\n' ∉ b.tk.text.toList) :
+    ∃ p m q psm, src.toList = p ++ m ++ q ∧
+      ((tokSpan pre).sl, (tokSpan pre).sc) = advance 1 0 p ∧ ((tokSpan pre).el, (tokSpan pre).ec) = advance 1 0 (p ++ m) ∧
+      m = flat psm ∧ kindsOf psm = pre.map (·.tk) ∧ (∀ x ∈ psm, x.WF) ∧
+      (∃ t w r, psm = Piece.tok t w :: r) ∧ (∃ r t w, psm = r ++ [Piece.tok t w]) := by
+  rw [lex_eq_scan, Option.map_eq_some_iff] at hl
+  obtain ⟨ps, hps, hto⟩ := hl
+  have hne : pre ≠ [] := by rintro rfl; simp at hb
+  have hwf := scan_wf hps
+  have hflat := scan_flat hps
+  rw [hts] at hto
+  obtain ⟨ps12, ps3, rfl, h12, _, r12, tb, wb, hr12⟩ := tokensOf_split_min hto (by simp [hne])
+  obtain ⟨ps1, psm, rfl, _, hm, ta, wa, ra, hra⟩ := tokensOf_split_max h12 hne
+  -- `psm` ends with the last token piece
+  have hend : ∃ r, psm = r ++ [Piece.tok tb wb] := by
+    have hpsm : psm ≠ [] := by rw [hra]; simp
+    have h1 : (ps1 ++ psm).getLast? = some (Piece.tok tb wb) := by rw [hr12]; simp
+    rw [hra, List.getLast?_append, List.getLast?_cons] at h1
+    have h2 : psm.getLast? = some (Piece.tok tb wb) := by
+      rw [hra, List.getLast?_cons]; simpa using h1
+    exact List.getLast?_eq_some_iff.mp h2
+  obtain ⟨rm, hrm⟩ := hend
+  refine ⟨flat ps1, flat psm, flat ps3, psm, ?_, ?_, ?_, rfl, ?_, ?_, ⟨ta, wa, ra, hra⟩, ⟨rm, tb, wb, hrm⟩⟩
+  · rw [← hflat, flat_append, flat_append]
+  · -- start
+    have : ∃ a0 p0, pre = a0 :: p0 ∧ a0.line = (advance 1 0 (flat ps1)).1 ∧ a0.col = (advance 1 0 (flat ps1)).2 := by
+      rw [← hm, hra]; simp only [tokensOf]; exact ⟨_, _, rfl, rfl, rfl⟩
+    obtain ⟨a0, p0, rfl, h1, h2⟩ := this
+    have h3 := tokSpan_cons_start a0 p0
+    rw [h3.1, h3.2, h1, h2]
+  · -- end
+    have : ∃ pm bl, pre = pm ++ [bl] ∧ bl.tk = tb ∧ bl.line = (advance 1 0 (flat ps1 ++ flat rm)).1 ∧
+        bl.col = (advance 1 0 (flat ps1 ++ flat rm)).2 ∧ bl.len = wb.length := by
+      rw [← hm, hrm, tokensOf_append]; simp only [tokensOf, advance_append]; exact ⟨_, _, rfl, rfl, rfl, rfl, rfl⟩
+    obtain ⟨pm, bl, rfl, hb1, hb2, hb3, hb4⟩ := this
+    have hb' : bl = b := by simpa using hb
+    subst hb'
+    have hwb : tb.text.toList = wb := (hwf (Piece.tok tb wb) (by rw [hrm]; simp)).2
+    have hnl' : '\n' ∉ wb := by rw [← hwb, ← hb1]; exact hnl
+    have he := tokSpan_end hb
+    rw [he.1, he.2, hb2, hb3, hb4, hrm, flat_append, flat_cons, Piece.chars]
+    simp only [flat, List.map_nil, List.flatten_nil, List.append_nil]
+    rw [← List.append_assoc, advance_append _ _ (_ ++ _) wb, advance_no_newline _ _ _ hnl']
+  · rw [← tokensOf_kinds (advance 1 0 (flat ps1)).1 (advance 1 0 (flat ps1)).2, hm]
+  · intro x hx; exact hwf x (by simp [hx])
+
+
+theorem lex_tok_wf {s : String} {toks : List Token} (h : lex s = some toks) {t : Token} (ht : t ∈ toks) : t.tk.WF := by
+  rw [lex_eq_scan, Option.map_eq_some_iff] at h
+  obtain ⟨ps, hps, rfl⟩ := h
+  obtain ⟨ps1, w, ps2, h1, _⟩ := tokensOf_mem ht
+  exact scan_tok_wf hps t.tk w (by rw [h1]; simp)
+
+/-- the token kinds that occur in a data type reference: names and punctuation -/
+def TyTk (t : Tk) : Prop := (∃ s, t = .kw s) ∨ (∃ s, t = .id s) ∨ (∃ s, t = .nsid s)
+
+theorem nameTk_tyTk (n : String) (d : Bool) : TyTk (nameTk n d) := by
+  cases d
+  · exact Or.inr (Or.inl ⟨n, rfl⟩)
+  · exact Or.inr (Or.inr ⟨n, rfl⟩)
+
+mutual
+theorem printTy_tyTk (s : TyShape) : ∀ k ∈ printTy s, TyTk k := by
+  match s with
+  | .mk n d [] o =>
+    intro k hk
+    rw [printTy_nil] at hk
+    rcases List.mem_cons.mp hk with rfl | hk
+    · exact nameTk_tyTk n d
+    · cases o
+      · simp at hk
+      · simp at hk; exact Or.inl ⟨_, hk⟩
+  | .mk n d (a :: as) o =>
+    have h1 := printTy_tyTk a
+    have h2 := printArgs_tyTk as
+    intro k hk
+    rw [printTy_cons] at hk
+    simp only [List.mem_cons, List.mem_append] at hk
+    rcases hk with rfl | rfl | hk | hk | rfl | hk
+    · exact nameTk_tyTk n d
+    · exact Or.inl ⟨_, rfl⟩
+    · exact h1 k hk
+    · exact h2 k hk
+    · exact Or.inl ⟨_, rfl⟩
+    · cases o
+      · simp at hk
+      · simp at hk; exact Or.inl ⟨_, hk⟩
+theorem printArgs_tyTk (as : List TyShape) : ∀ k ∈ printArgs as, TyTk k := by
+  match as with
+  | [] => intro k hk; simp [printArgs] at hk
+  | a :: as =>
+    have h1 := printTy_tyTk a
+    have h2 := printArgs_tyTk as
+    intro k hk
+    rw [printArgs_cons] at hk
+    simp only [List.mem_cons, List.mem_append] at hk
+    rcases hk with rfl | hk | hk
+    · exact Or.inl ⟨_, rfl⟩
+    · exact h1 k hk
+    · exact h2 k hk
+end
+
+/-- **C03, positions of type references in the source text**: for a successfully lexed text and a data type reference
+    parsed from (a suffix `ts` of) its tokens, the text splits as `p ++ m ++ q` such that the recorded start is the
+    line/column reached after `p`, the recorded end is the line/column reached after `p ++ m`, and `m` consists of exactly
+    the consumed tokens' texts, in order, separated by the white-space runs that stood between them; `m` begins with the
+    first and ends with the last consumed token (comments cannot occur: they would be tokens) -/
+theorem dataType_text_segment {src : String} {toks before ts : List Token} (hl : lex src = some toks)
+    (hts : toks = before ++ ts) {fuel : Nat} {t : TypeRef} {rest : List Token} (h : dataType fuel ts = some (t, rest)) :
+    ∃ pre p m q psm, ts = pre ++ rest ∧ pre ≠ [] ∧ src.toList = p ++ m ++ q ∧
+      (t.pos.sl, t.pos.sc) = advance 1 0 p ∧ (t.pos.el, t.pos.ec) = advance 1 0 (p ++ m) ∧
+      m = flat psm ∧ kindsOf psm = pre.map (·.tk) ∧ (∀ x ∈ psm, x.WF) ∧
+      (∃ t w r, psm = Piece.tok t w :: r) ∧ (∃ r t w, psm = r ++ [Piece.tok t w]) := by
+  obtain ⟨pre, hpre, hne, hpos, _⟩ := dataType_span fuel ts t rest h
+  obtain ⟨pre', s, hpre', hkinds, _⟩ := dataType_sound fuel ts t rest h
+  have : pre' = pre := by
+    rw [hpre] at hpre'; exact (List.append_cancel_right hpre').symm
+  subst this
+  cases hb : pre'.getLast? with
+  | none => simp at hb; exact absurd hb hne
+  | some b =>
+    have hbmem : b ∈ pre' := List.mem_of_getLast? hb
+    have hbty : TyTk b.tk := printTy_tyTk s _ (by rw [← hkinds]; exact List.mem_map_of_mem hbmem)
+    have hbwf : b.tk.WF := lex_tok_wf hl (by rw [hts, hpre]; simp [hbmem])
+    obtain ⟨p, m, q, psm, h1, h2, h3, h4, h5, h6, h7, h8⟩ :=
+      lex_segment_text (before := before) (pre := pre') (rest := rest) hl (by rw [hts, hpre]; simp) hb
+        (wf_no_newline hbwf hbty)
+    exact ⟨pre', p, m, q, psm, hpre, hne, h1, by rw [hpos]; exact h2, by rw [hpos]; exact h3, h4, h5, h6, h7, h8⟩
+
+/-- the same for **record fields**: the text between the recorded start and end of a field is exactly its tokens
+    (doc comments, name, `:`, type, `;`) separated by the white space that stood between them -/
+theorem field_text_segment {src : String} {toks before ts : List Token} (hl : lex src = some toks)
+    (hts : toks = before ++ ts) {fuel : Nat} {f : Field} {rest : List Token} (h : field fuel ts = some (f, rest)) :
+    ∃ pre p m q psm, ts = pre ++ rest ∧ pre ≠ [] ∧ src.toList = p ++ m ++ q ∧
+      (f.pos.sl, f.pos.sc) = advance 1 0 p ∧ (f.pos.el, f.pos.ec) = advance 1 0 (p ++ m) ∧
+      m = flat psm ∧ kindsOf psm = pre.map (·.tk) ∧ (∀ x ∈ psm, x.WF) ∧
+      (∃ t w r, psm = Piece.tok t w :: r) ∧ (∃ r t w, psm = r ++ [Piece.tok t w]) := by
+  obtain ⟨pre, hpre, hne, cs, nm, colon, st, semi, rfl, _, _, _, hsemi, hpos, _⟩ := field_span fuel ts f rest h
+  have hb : (cs ++ nm :: colon :: (st ++ [semi])).getLast? = some semi := by
+    have e : cs ++ nm :: colon :: (st ++ [semi]) = (cs ++ nm :: colon :: st) ++ [semi] := by simp
+    rw [e, List.getLast?_append]; rfl
+  have hnl : '\n' ∉ semi.tk.text.toList := by rw [hsemi]; decide +kernel
+  obtain ⟨p, m, q, psm, h1, h2, h3, h4, h5, h6, h7, h8⟩ :=
+    lex_segment_text (before := before) (rest := rest) hl (by rw [hts, hpre]; simp) hb hnl
+  exact ⟨_, p, m, q, psm, hpre, hne, h1, by rw [hpos]; exact h2, by rw [hpos]; exact h3, h4, h5, h6, h7, h8⟩
+
 /-! ## 5. a test on a nested generic type -/
 
 mutual
@@ -913,5 +1216,8 @@ example : (lex "# doc\nx : list<i32> ;").bind (fun ts => (field 40 ts).map (fun 
 #print axioms member_span
 #print axioms interface_span
 #print axioms dataType_text_span
+#print axioms lex_segment_text
+#print axioms dataType_text_segment
+#print axioms field_text_segment
 
 end Pydjinni.Front
